@@ -162,6 +162,25 @@ def run(tier):
                 chk.violation("seed", "after re-assigning %s the mapped circuit differs from the one of a fresh, identically configured model with the same seed" % attr,
                               script, sig={"clause": "seed", "family": "history"})
                 break
+    # ONE Reck object mapping two circuits that differ by a parameter step of 2e-7 (and then by an ordinary step)
+    for n in (3, 4):
+        par = lw.Parameter(0.4)
+        c = lw.Circuit(n)
+        for i in range(n - 1):
+            c.bs(i, i + 1, reflectivity=0.3 + 0.1 * i)
+        c.ps(1, par)
+        for i in range(n - 1):
+            c.bs(i, i + 1)
+        mapper = itf.Reck()
+        mapper.map(c)
+        for step in (2e-7, 0.5):
+            par.set(par.get() + step)
+            chk.count(key="reuse-reck%d/%g" % (n, step))
+            m = mapper.map(c)
+            dev = np.abs(m.U_full - c.U_full).max() if m.U_full.shape == c.U_full.shape else float("inf")
+            if dev > 1e-10:
+                chk.violation("unitary", "the second map() of the same Reck object, after a parameter step of %g, reproduces the unitary only to %.3g" % (step, dev),
+                              {"history": "Reck().map(c); parameter += %g; map(c) again" % step, "n": n}, sig={"clause": "unitary", "family": "reused_reck"})
     noisy = itf.Reck()
     noisy.error_model.loss = dists.TopHat(0.05, 0.2)
     noisy.error_model.bs_reflectivity = dists.TopHat(0.4, 0.6)
